@@ -15,7 +15,7 @@ static void ledger_on_delete(void *p);
 /* ---- lifted callees (bodies, not contracts: they are trivial one-step functions) ---- */
 static void stop_state_ctor(struct stop_state *self)
 //@LIFT stop_state_ctor
-static void add_source_count(struct stop_state *self)
+static void add_source_count_body(struct stop_state *self)
 //@LIFT add_source_count
 static void remove_source_count(struct stop_state *self)
 //@LIFT remove_source_count
@@ -24,6 +24,7 @@ static void intrusive_ptr_add_ref(struct stop_state *p)
 static void intrusive_ptr_release(struct stop_state *p)
 //@LIFT release
 
+static void add_source_count(struct stop_state *self);
 /* ---- universe and books ---- */
 static struct stop_state g_S[3];
 static bool g_del[3];                  /* state i does not exist (not yet created / destroyed) */
@@ -37,6 +38,15 @@ static void ledger_on_delete(void *p)
   int i = (p == (void *) &g_S[0]) ? 0 : (p == (void *) &g_S[1]) ? 1 : 2;
   VX_ASSERT(!g_del[i], "stop state destroyed twice");
   g_del[i] = true;
+}
+/* the S-contract precondition of add_source_count (unit state.add_source_count: g_mysrc >= 1, "a shared state gets a new
+ * source only as a copy of a live one") re-proved at every lifted call site (DESIGN 3.1): either the state is the fresh,
+ * still unshared one, or a source for it is alive right now */
+static void add_source_count(struct stop_state *self)
+{
+  VX_ASSERT((g_newed && self == &g_S[2]) || W_SRC(self->state_) >= 1,
+            "add_source_count on a shared state whose source count is 0 (stop_possible would flip back from false to true)");
+  add_source_count_body(self);
 }
 /* `new detail::stop_state` */
 static struct stop_state *stop_state_new(void)
